@@ -17,8 +17,11 @@ OUTSIDE = ['more callers / larger capacity than listed', 'AsyncServer (asyncio e
 def run(pid, tier, configs, explanation):
     t0 = time.time()
     known = load_known(pid)
-    jobs = [(run_b_job, ({'property': pid, 'scenario': S, 'params': p, 'known': known},
-                         3300 if tier == 'thorough' else 1500)) for p in configs]
+    jobs = []
+    for c in configs:
+        scn, p = (c if isinstance(c, tuple) else (S, c))
+        jobs.append((run_b_job, ({'property': pid, 'scenario': scn, 'params': p, 'known': known},
+                                 3300 if tier == 'thorough' else 1500)))
     results = run_jobs(jobs)
     return finish(pid, tier, 'model_checking', results, t0, explanation=explanation, assumptions=ASSUME,
                   outside=OUTSIDE)
